@@ -1,0 +1,125 @@
+// SPDX-License-Identifier: GPL-3.0-or-later
+
+//go:build verif
+// +build verif
+
+package routing
+
+import (
+	"github.com/dtn7/dtn7-go/pkg/bpv7"
+	"github.com/dtn7/dtn7-go/pkg/cla"
+	"github.com/dtn7/dtn7-go/pkg/storage"
+)
+
+// This file exposes read-only observers for external runtime verification (build tag verif).
+
+// VerifCloseAgents shuts the AgentManager down, which Core.Close does not do.
+func (c *Core) VerifCloseAgents() error {
+	return c.agentManager.Close()
+}
+
+// VerifStore returns the Core's Store.
+func (c *Core) VerifStore() *storage.Store {
+	return c.store
+}
+
+// VerifAlgorithm returns the Core's routing Algorithm.
+func (c *Core) VerifAlgorithm() Algorithm {
+	return c.routing
+}
+
+// VerifClaManager returns the Core's CLA Manager.
+func (c *Core) VerifClaManager() *cla.Manager {
+	return c.claManager
+}
+
+// VerifInner returns the wrapped Algorithm.
+func (snm *SensorNetworkMuleRouting) VerifInner() Algorithm {
+	return snm.algorithm
+}
+
+// VerifTable returns a copy of the routing table.
+func (dtlsr *DTLSR) VerifTable() map[bpv7.EndpointID]bpv7.EndpointID {
+	dtlsr.dataMutex.RLock()
+	defer dtlsr.dataMutex.RUnlock()
+
+	table := make(map[bpv7.EndpointID]bpv7.EndpointID, len(dtlsr.routingTable))
+	for k, v := range dtlsr.routingTable {
+		table[k] = v
+	}
+	return table
+}
+
+// VerifPeers returns a copy of the node's own link data.
+func (dtlsr *DTLSR) VerifPeers() bpv7.DTLSRPeerData {
+	dtlsr.dataMutex.RLock()
+	defer dtlsr.dataMutex.RUnlock()
+
+	return verifCopyPeerData(dtlsr.peers)
+}
+
+// VerifReceived returns a copy of the link data received from other nodes.
+func (dtlsr *DTLSR) VerifReceived() map[bpv7.EndpointID]bpv7.DTLSRPeerData {
+	dtlsr.dataMutex.RLock()
+	defer dtlsr.dataMutex.RUnlock()
+
+	received := make(map[bpv7.EndpointID]bpv7.DTLSRPeerData, len(dtlsr.receivedData))
+	for k, v := range dtlsr.receivedData {
+		received[k] = verifCopyPeerData(v)
+	}
+	return received
+}
+
+func verifCopyPeerData(pd bpv7.DTLSRPeerData) bpv7.DTLSRPeerData {
+	peers := make(map[bpv7.EndpointID]bpv7.DtnTime, len(pd.Peers))
+	for k, v := range pd.Peers {
+		peers[k] = v
+	}
+	return bpv7.DTLSRPeerData{ID: pd.ID, Timestamp: pd.Timestamp, Peers: peers}
+}
+
+// VerifPredictabilities returns a copy of the node's own delivery predictabilities.
+func (prophet *Prophet) VerifPredictabilities() map[bpv7.EndpointID]float64 {
+	prophet.dataMutex.RLock()
+	defer prophet.dataMutex.RUnlock()
+
+	preds := make(map[bpv7.EndpointID]float64, len(prophet.predictabilities))
+	for k, v := range prophet.predictabilities {
+		preds[k] = v
+	}
+	return preds
+}
+
+// VerifPeerPredictabilities returns a copy of the predictabilities advertised by peers.
+func (prophet *Prophet) VerifPeerPredictabilities() map[bpv7.EndpointID]map[bpv7.EndpointID]float64 {
+	prophet.dataMutex.RLock()
+	defer prophet.dataMutex.RUnlock()
+
+	all := make(map[bpv7.EndpointID]map[bpv7.EndpointID]float64, len(prophet.peerPredictabilities))
+	for peer, m := range prophet.peerPredictabilities {
+		preds := make(map[bpv7.EndpointID]float64, len(m))
+		for k, v := range m {
+			preds[k] = v
+		}
+		all[peer] = preds
+	}
+	return all
+}
+
+// VerifMeta returns the remaining copies and the sent list for a bundle.
+func (sw *SprayAndWait) VerifMeta(bid bpv7.BundleID) (remaining uint64, sent []bpv7.EndpointID, ok bool) {
+	sw.dataMutex.RLock()
+	defer sw.dataMutex.RUnlock()
+
+	md, ok := sw.bundleData[bid]
+	return md.remainingCopies, append([]bpv7.EndpointID(nil), md.sent...), ok
+}
+
+// VerifMeta returns the remaining copies and the sent list for a bundle.
+func (bs *BinarySpray) VerifMeta(bid bpv7.BundleID) (remaining uint64, sent []bpv7.EndpointID, ok bool) {
+	bs.dataMutex.RLock()
+	defer bs.dataMutex.RUnlock()
+
+	md, ok := bs.bundleData[bid]
+	return md.remainingCopies, append([]bpv7.EndpointID(nil), md.sent...), ok
+}
